@@ -46,10 +46,13 @@ def unhx(w):
 @contextlib.contextmanager
 def quiet():
     """PyCifRW prints its syntax errors; keep the check's output clean."""
+    import numpy
+
     o, e = sys.stdout, sys.stderr
     sys.stdout, sys.stderr = io.StringIO(), io.StringIO()
     try:
-        yield
+        with numpy.errstate(all="ignore"):      # inf / nan coordinates of garbled texts
+            yield
     finally:
         sys.stdout, sys.stderr = o, e
 
@@ -160,10 +163,13 @@ def sig(stru, nd=6):
     """comparable content of a structure: atoms (element, Cartesian position, occupancy, U) and lattice"""
     if stru is None:
         return None
-    lat = tuple(_rf(x, nd) for x in stru.lattice.abcABG())
-    atoms = []
-    for a in stru:
-        atoms.append((a.element, tuple(_rf(x, nd) for x in a.xyz_cartn), _rf(a.occupancy, nd), tuple(_rf(x, nd) for x in a.U.flatten())))
+    import numpy
+
+    with numpy.errstate(all="ignore"):
+        lat = tuple(_rf(x, nd) for x in stru.lattice.abcABG())
+        atoms = []
+        for a in stru:
+            atoms.append((a.element, tuple(_rf(x, nd) for x in a.xyz_cartn), _rf(a.occupancy, nd), tuple(_rf(x, nd) for x in a.U.flatten())))
     return (lat, tuple(atoms))
 
 
@@ -523,7 +529,7 @@ def judge(case, matrix, order_names, got, model, header, ref=None):
 
 # ---- streams ----------------------------------------------------------------------------
 
-def order_stream(ck, rep, formats, exts):
+def order_stream(ck, rep, formats, exts, drift):
     from fnmatch import fnmatch
 
     from diffpy.structure.parsers.p_auto import P_auto
@@ -541,6 +547,7 @@ def order_stream(ck, rep, formats, exts):
         names.append("".join(rng.choice("abx./ *?-_" + "cifstruxyzpdbeg") for _ in range(n)))
     lines = ["auto.order gen %s" % ("-" if n is None else hx(n)) for n in names]
     out = common.driver(lines)
+    entries_ = registry_entries()
     nd = 0
     for n, o in zip(names, out):
         p = P_auto()
@@ -554,9 +561,14 @@ def order_stream(ck, rep, formats, exts):
         ck.coverage["traces_validated_against_impl"] += 1
         if n and real != [f for f in formats]:
             nd += 1
-        if model != real:
-            ck.fail("order:%s" % (os.path.splitext(n)[1] if n else n), "_getOrderedFormats for file name %r: code %r, model %r" % (n, real, model),
-                    {"kind": "order", "filename": n, "expected_model": model, "observed": real})
+        ref = reference_order(entries_, n)
+        if real != ref:
+            ck.fail("order:%s" % (os.path.splitext(n)[1] if n else n), "_getOrderedFormats for file name %r gives %r; the documented rule (formats whose "
+                    "pattern matches the base name first) gives %r" % (n, real, ref),
+                    {"kind": "order", "filename": n, "expected": ref, "expected_model": model, "observed": real})
+        elif model != real:
+            drift.append(("model-vs-impl:order", "_getOrderedFormats for file name %r: code %r, model %r" % (n, real, model),
+                          {"kind": "order", "filename": n, "expected": ref, "expected_model": model, "observed": real}))
     ck.coverage["distinct_nontrivial"] += nd
     # fnmatch itself
     pats, nms = [], []
@@ -919,7 +931,7 @@ def run(ck):
 
         formats = [f for f in inputFormats() if f != "auto"]
         exts = all_extensions(rep["entries"])
-        order_stream(ck, rep, formats, exts)
+        order_stream(ck, rep, formats, exts, drift)
         ps = probe_stream(ck, drift)
         if ps:
             samples.append(ps)
